@@ -460,23 +460,28 @@ class ConditionLike:
             func_args = get_func_args_by_kind(cond_method)
 
             # Coerce arguments to `DataPath`s where specified as such:
+            # (new containers are built, so that the caller's spec is left as it is)
             if isinstance(spec_val, dict):
                 try:
                     spec_val = valida.datapath.DataPath.from_spec(spec_val)
                 except MalformedDataPathSpec:
                     # Check values for DataPath specs:
+                    new_spec_val = {}
                     for k, v in spec_val.items():
                         try:
-                            spec_val[k] = valida.datapath.DataPath.from_spec(v)
+                            new_spec_val[k] = valida.datapath.DataPath.from_spec(v)
                         except MalformedDataPathSpec:
-                            pass
+                            new_spec_val[k] = v
+                    spec_val = new_spec_val
             elif isinstance(spec_val, (list, tuple)):
                 # Check items for DataPath specs:
-                for idx, v in enumerate(spec_val):
+                new_spec_val = []
+                for v in spec_val:
                     try:
-                        spec_val[idx] = valida.datapath.DataPath.from_spec(v)
+                        new_spec_val.append(valida.datapath.DataPath.from_spec(v))
                     except MalformedDataPathSpec:
-                        pass
+                        new_spec_val.append(v)
+                spec_val = type(spec_val)(new_spec_val)
 
             # invoke the condition method to construct the Condition object:
 
